@@ -28,7 +28,13 @@ a **yielder** returns *yielded* while it has budget, then *waiting*; a **sleeper
 `if (fibre_timeout(due)) { due = now + period; fibre_timeout(due); } return waiting`; a **waiter** just returns *waiting*.
 
 Ghost state (never read by modelled code): `a`, the abstract specification `Spec/IsrSpec.lean` fed with the
-observable calls/returns at the instants they happen; `drainFrom`.  Not modelled: `fibre_t.state` (write-only).
+observable calls/returns at the instants they happen (a request is *accepted* at the `fetch_or` that publishes it, an
+event takes its place in the queue at the compare-exchange that fixes its buffer); `drainFrom`, `evlog`,
+`evWakeFailed`, `handlerKilled`; the ghost tickets of the two queues.  Not modelled: `fibre_t.state` (write-only).
+
+Fuel: `runMain` / `runSender` take fuel; when it runs out the history is cut explicitly (`hung`, token `!!model-fuel`,
+and no context can enter another call) — never silently.  No theorem depends on the fuel: they are stated over the
+step relation (`Isr.L.Reach`), through which the runner is proved to move for every fuel value.
 -/
 namespace Librfn.Model.FibreIsr
 open Librfn.Sched (Fid Ret)
